@@ -82,6 +82,25 @@ pub(super) fn undefined_intrinsic(bytes: u32, control_flow_graph: &mut il::Contr
     control_flow_graph.set_exit(block_index).unwrap();
 }
 
+
+/// `add`, `adds`, `sub`, `subs` and `mov` are lifted as ONE scalar operation on the
+/// low element. An operand with an arrangement specifier (`v0.8b`, `z3.h`) or an
+/// SVE register has one operation per lane, which this lifter cannot express:
+/// such instructions are unsupported rather than lifted with the wrong meaning.
+fn reject_lanewise_operands(instruction: &bad64::Instruction, allow_advsimd_elements: bool) -> Result<()> {
+    for opr in instruction.operands() {
+        if let bad64::Operand::Reg { reg, arrspec } = opr {
+            if get_register(*reg)?.is_sve() {
+                return Err(unsupported());
+            }
+            if arrspec.is_some() && !allow_advsimd_elements {
+                return Err(unsupported());
+            }
+        }
+    }
+    Ok(())
+}
+
 /// Only supports non-memory operands.
 /// `out_bits` is only used for zero/sign-extension modifier.
 fn operand_load(
@@ -592,6 +611,8 @@ pub(super) fn add(
     control_flow_graph: &mut il::ControlFlowGraph,
     instruction: &bad64::Instruction,
 ) -> Result<()> {
+    reject_lanewise_operands(instruction, false)?;
+
     let block_index = {
         let block = control_flow_graph.new_block().unwrap();
 
@@ -624,6 +645,8 @@ pub(super) fn adds(
     control_flow_graph: &mut il::ControlFlowGraph,
     instruction: &bad64::Instruction,
 ) -> Result<()> {
+    reject_lanewise_operands(instruction, false)?;
+
     let block_index = {
         let block = control_flow_graph.new_block().unwrap();
 
@@ -1204,6 +1227,8 @@ pub(super) fn mov(
     control_flow_graph: &mut il::ControlFlowGraph,
     instruction: &bad64::Instruction,
 ) -> Result<()> {
+    reject_lanewise_operands(instruction, true)?;
+
     let block_index = {
         let block = control_flow_graph.new_block().unwrap();
 
@@ -1392,6 +1417,8 @@ pub(super) fn sub(
     control_flow_graph: &mut il::ControlFlowGraph,
     instruction: &bad64::Instruction,
 ) -> Result<()> {
+    reject_lanewise_operands(instruction, false)?;
+
     let block_index = {
         let block = control_flow_graph.new_block().unwrap();
 
@@ -1424,6 +1451,8 @@ pub(super) fn subs(
     control_flow_graph: &mut il::ControlFlowGraph,
     instruction: &bad64::Instruction,
 ) -> Result<()> {
+    reject_lanewise_operands(instruction, false)?;
+
     let block_index = {
         let block = control_flow_graph.new_block().unwrap();
 
